@@ -327,12 +327,13 @@ func c05Write(matFile string, ms []c05Mesh) (string, []byte) {
 		for i, m := range ms {
 			in[i] = obj.ObjMesh{Name: m.name, Mesh: m.mesh(pool)}
 		}
-		var buf bytes.Buffer
-		if err := obj.WriteMeshes(in, matFile, &buf); err != nil {
-			return "err"
+		buf := objstlCapBuffer{Cap: 48 << 20} // far beyond anything a generated scene can legitimately produce
+		err := obj.WriteMeshes(in, matFile, &buf)
+		if buf.Overflow {
+			return "oversize-output"
 		}
-		if buf.Len() > 32<<20 { // far beyond anything a generated scene can legitimately produce: do not ship it around
-			return fmt.Sprintf("oversize-output len=%d", buf.Len())
+		if err != nil {
+			return "err"
 		}
 		text = buf.Bytes()
 		return "ok " + hx(text)
@@ -401,8 +402,12 @@ func c05ResaveOp(gs []obj.ObjMesh) string {
 func c05Resave(gs []obj.ObjMesh) (string, []byte) {
 	var text []byte
 	ans := Guard(func() string {
-		var buf bytes.Buffer
-		if err := obj.WriteMeshes(gs, "", &buf); err != nil {
+		buf := objstlCapBuffer{Cap: 48 << 20}
+		err := obj.WriteMeshes(gs, "", &buf)
+		if buf.Overflow {
+			return c05Hs("oversize-output")
+		}
+		if err != nil {
 			return "err"
 		}
 		text = buf.Bytes()
@@ -453,6 +458,8 @@ func (c *Ctx) c05SceneCase(o c05Opts, holds string) {
 	sans, text2 := c05Resave(gs)
 	if text2 != nil {
 		c.Emit("c05.holds.resave", hx(text)+" "+sans, "true")
+	} else { // saving what was read failed (error, panic, runaway output): the predicate is false
+		c.Emit("c05.holds.resave", hx(text)+" "+c05Hs("resave-failed"), "true")
 	}
 }
 
@@ -896,6 +903,8 @@ func (c *Ctx) c05BigCase(nv, nt int, attr int, ranges int, span int, resave bool
 	}
 	if sans, text2 := c05Resave(gs); text2 != nil {
 		c.Emit("c05.holds.resave", hx(text)+" "+sans, "true")
+	} else {
+		c.Emit("c05.holds.resave", hx(text)+" "+c05Hs("resave-failed"), "true")
 	}
 }
 
